@@ -146,6 +146,16 @@ class Verifier:
             if p not in vals:
                 r = ex.eval(d, st, self._module_of(node))
                 vals[p] = r[0][2]
+        if node.args.kwarg and node.args.kwarg.arg in argtags:
+            # **kwargs with a statically known key set: 'kw:name1,name2' -> symbolic values for exactly those keys
+            spec = argtags[node.args.kwarg.arg]
+            names = [n for n in spec[3:].split(',') if n]
+            items = {}
+            for n in names:
+                nm, _, tg = n.partition('=')
+                items[nm] = make_arg(ex, st, 'kw_' + nm, tg or 'ref', prefix)
+            ref = ex.alloc(st, 'kwdict', Obj('kwdict', items=items))
+            vals[node.args.kwarg.arg] = sv_ref(ref, 'kwdict')
         for p in params:
             if p not in vals:
                 raise Unsupported('no type declared for parameter %s' % p)
@@ -197,14 +207,18 @@ class Verifier:
             self.undecided.append((label, 'precondition unsatisfiable (vacuous contract)'))
             return
         npaths = 0
+        nnormal = 0
         for s0 in starts:
             outs = ex.run_function(c.func, node, module, s0, cls)
             for o in outs:
                 npaths += 1
+                nnormal += o.kind in ('ret', 'fall')
                 self._post_out(ex, c, case, o, module, label)
         for ob in ex.obligations:
             self.add(ob['name'] + '[%s]' % case.name, c.func, ob['clause'], ob['pc'], ob['goal'], 'invariant')
         self.stats['paths'] += npaths
+        if not case.kw.get('raise_only') and not (case.raises and case.ensures == ['False']):
+            self.covers.append((label + '::normal-path-reachable', nnormal > 0))
 
     def _post_out(self, ex, c, case, o, module, label):
         st = o.st
@@ -288,8 +302,8 @@ class Verifier:
     def _verify_equiv(self, c, label):
         inode = self.resolve(c.func)[0]
         rnode = self.resolve(c.ref)[0]
-        iparams = [a.arg for a in inode.args.args] + ([inode.args.vararg.arg] if inode.args.vararg else [])
-        rparams = [a.arg for a in rnode.args.args] + ([rnode.args.vararg.arg] if rnode.args.vararg else [])
+        iparams = [a.arg for a in inode.args.args] + ([inode.args.vararg.arg] if inode.args.vararg else []) + ([inode.args.kwarg.arg] if inode.args.kwarg else [])
+        rparams = [a.arg for a in rnode.args.args] + ([rnode.args.vararg.arg] if rnode.args.vararg else []) + ([rnode.args.kwarg.arg] if rnode.args.kwarg else [])
         positional = ['p%d' % i for i in range(max(len(iparams), len(rparams)))]
         rargs = c.ref_args or {rp: c.args[ip] for ip, rp in zip(iparams, rparams) if ip in c.args}
         iloops = {o: dict(lc, name='%s.loop%s' % (c.ref, lc.get('ref', o)), vars=lc['vars']) for o, lc in c.loops.items()}
@@ -302,6 +316,8 @@ class Verifier:
             self.undecided.append((label, 'precondition unsatisfiable (vacuous contract)'))
             return
         self.stats['paths'] += len(outs_i)
+        if not c.kw.get('raise_only') and not any(label.endswith('[%s]' % x) or ('[%s,' % x) in label for x in c.kw.get('raise_only_cases', ())):
+            self.covers.append((label + '::normal-path-reachable', any(o.kind in ('ret', 'fall') for o in outs_i)))
         self._match(label, c, exi, outs_i, exr, outs_r, 'equiv')
         for ob in exi.obligations + exr.obligations:
             self.add(ob['name'], c.func, ob['clause'], ob['pc'], ob['goal'], 'invariant')
@@ -366,7 +382,7 @@ class Verifier:
                     if kind_of(q) == kind_of(p) and getattr(q, 'tag', None) == getattr(p, 'tag', None) and len(comps_q) == len(comps_p):
                         print('    REF', getattr(q, 'tag', None), [e for e in q.st.events])
                         sol = z3.Solver(); sol.set('timeout', 5000)
-                        sol.add(*exi.base_facts[:0]); sol.add(*p.st.pc); sol.add(*q.st.pc)
+                        sol.add(*exi.base_facts); sol.add(*p.st.pc); sol.add(*q.st.pc)
                         if sol.check() == z3.unsat:
                             print('        (path conditions incompatible)'); continue
                         labels = ['comp%d' % i for i in range(len(comps_p))] + ['state%d' % i for i in range(20)]
@@ -375,7 +391,7 @@ class Verifier:
                             sol.push(); sol.add(z3.Not(eq)); r = sol.check(); sol.pop()
                             if r != z3.unsat:
                                 print('        differs:', lab, str(z3.simplify(eq))[:400].replace('\n', ' '))
-                        sol2 = z3.Solver(); sol2.set('timeout', 5000); sol2.add(*p.st.pc)
+                        sol2 = z3.Solver(); sol2.set('timeout', 5000); sol2.add(*exi.base_facts); sol2.add(*p.st.pc)
                         for f in q.st.pc:
                             if f.get_id() in pset:
                                 continue
